@@ -138,6 +138,7 @@ def run(ctx):
                 "distinct = (scenario, operator before, operator after)")
     vh = VH(vh_bin(), locklog=os.path.join(ctx.scratch_root, "lock_vh.log"))
     try:
+        directed_query_orders(ctx, vh)
         for h in range(n_hist):
             root = ctx.scratch(f"h{h}")
             ws = gen.gen_workspace(root, ctx.rng, depth=ctx.rng.randint(1, 3), venv=False, module_pkg_twins=True)
@@ -320,6 +321,51 @@ def run_eviction(ctx, vh, h):
     for d in (A, B, Cc):
         vh.call(op="drop_db", db=d)
     shutil.rmtree(root, ignore_errors=True)
+
+
+def directed_query_orders(ctx, vh):
+    """what one query memoises must not change what a later, independent query answers: directed import layouts in which
+    a nested import walk is cut short (cycles, diamonds); the probes are asked in every order on a warm database and each
+    answer is compared with a cold database that is asked this one question only"""
+    import itertools
+    from ..memo_layouts import layouts
+    for lay in layouts():
+        root = ctx.scratch("memo_" + lay["name"])
+        write_tree(root, lay["files"])
+        order = sorted(r for r in lay["files"] if r.endswith(".py"))
+        seq = [{"op": "analyze_fresh", "path": os.path.join(root, r), "text": lay["files"][r]} for r in order]
+
+        def ask(db, rel):
+            p = os.path.join(root, rel)
+            conf = os.path.join(os.path.dirname(p), "conftest.py")
+            av = vh.call(op="available", db=db, path=p)
+            im = vh.call(op="imported", db=db, path=conf)["imported"]
+            import json as _j
+            return strip_root({"available": sorted(av["available"], key=lambda d: _j.dumps(d, sort_keys=True)), "imported": sorted(im)}, root)
+
+        cold = {}
+        for rel in lay["probes"]:
+            B = vh.new_db()
+            vh.call(op="batch", cmds=[dict(c, db=B) for c in seq])
+            cold[rel] = ask(B, rel)
+            vh.call(op="drop_db", db=B)
+            if os.environ.get("VERIF_DEBUG_MEMO"):
+                print("[memo]", lay["name"], rel, cold[rel]["imported"])
+        for perm in itertools.permutations(lay["probes"]):
+            A = vh.new_db()
+            vh.call(op="batch", cmds=[dict(c, db=A) for c in seq])
+            for rel in perm:
+                got = ask(A, rel)
+                ctx.judged()
+                if got != cold[rel]:
+                    dd = diff(got, cold[rel])
+                    ctx.violation({"kind": "answer-depends-on-earlier-queries", "layout": lay["name"], "probe": rel,
+                                   "asked_before": list(perm[:perm.index(rel)])},
+                                  {"diffs": [(p_, brief(x), brief(y)) for p_, x, y in dd[:4]]}, files=lay["files"])
+            ctx.nontrivial(("query_order", lay["name"], perm))
+            vh.call(op="drop_db", db=A)
+        ctx.count("directed_query_order_layouts")
+        shutil.rmtree(root, ignore_errors=True)
 
 
 def query_before_scan(ctx, vh, h):
